@@ -982,7 +982,7 @@ func replayMini(prop string) func(path string) (bool, string, error) {
 }
 
 func init() {
-	for _, p := range []string{"C03", "C06", "C10", "C14", "C15"} {
+	for _, p := range []string{"C03", "C06", "C10", "C15"} {
 		runners[p] = runMiniProp(p)
 		replayers[p] = replayMini(p)
 	}
